@@ -66,7 +66,7 @@ def gen_arrays(run):
 
 
 # ------------------------------------------------------------------ (2) DATA / READ
-ITEMS = [("1", "n"), ("-2.5", "n"), ("&HFF", "n"), ('"A B"', "s"), (" C D ", "s"), ("", "e"), ('""', "s"), ("X", "s"), ("7E1", "n")]
+ITEMS = [("1", "n"), ("-2.5", "n"), ("&HFF", "n"), ('"A B"', "s"), (" C D ", "s"), ("", "e"), ('""', "s"), ("X", "s"), ("7E1", "n"), (".00005", "n"), ("2.5E-7", "n")]
 
 
 def gen_data(run, quick=True, tag="data"):
